@@ -1,4 +1,128 @@
-(** C01 — Stream data is delivered reliably, in order and exactly once. (stub, theorems follow) *)
-From QV Require Import Lib.Tac Lib.Bytes Lib.Corr Model.RangeSet Model.ArrayRangeSet Model.Assembler
-  Model.SendBuffer.
+(** C01 — Stream data is delivered reliably, in order and exactly once.
+    Property theorems only: each is closed by [exact] of a lemma proved under Proofs/, followed by
+    [Print Assumptions]. Models: Model/Assembler.v, Model/SendBuffer.v, Model/RangeSet.v,
+    Model/ArrayRangeSet.v (tied to the code by the correspondence check on every run). *)
+From QV Require Import Lib.Tac Lib.Bytes Lib.Corr Lib.RangeSpec Model.RangeSet Model.ArrayRangeSet
+  Model.Assembler Model.SendBuffer Proofs.HeapProofs Proofs.AssemblerProofs Proofs.SendBufferProofs.
 Open Scope Z_scope.
+
+(* ------------------------------------------------------------------ Assembler *)
+(** (a) For EVERY sequence of operations on one Assembler (inserts of slices of the written
+    sequence [w] in any order, with any overlaps, duplicates and allocation sizes — hence any
+    loss/duplication/reordering/re-chunking by the network and the sender —, reads with any
+    max_length, mode switches, clear, probes), on which the model does not panic:
+    the concatenation of the chunks returned by ordered reads is the prefix of [w] of exactly that
+    length, the chunks are consecutive from offset 0, and while the stream is in ordered mode
+    [bytes_read] is that length. *)
+Theorem C01_assembler_ordered_prefix : forall (w : Z -> Z) os a' evs,
+  Forall (AssemblerProofs.op_ok w) os ->
+  AssemblerProofs.exec Assembler.init os = Some (a', evs) ->
+  obytes evs = wslice w 0 (length (obytes evs)) /\
+  chain 0 (filter ev_ord evs) /\
+  (Assembler.ordered a' = true -> Assembler.bytes_read a' = zlen (obytes evs)).
+Proof. exact AssemblerProofs.ordered_prefix. Qed.
+Print Assumptions C01_assembler_ordered_prefix.
+
+(** (b), content half: every chunk returned by ANY read, ordered or unordered, before or after
+    the mode switch, equals the written sequence at its offset — no byte is ever altered. *)
+Theorem C01_assembler_reads_exact : forall (w : Z -> Z) os a' evs,
+  Forall (AssemblerProofs.op_ok w) os ->
+  AssemblerProofs.exec Assembler.init os = Some (a', evs) ->
+  Forall (fun e => ev_bytes e = wslice w (ev_off e) (length (ev_bytes e))) evs.
+Proof. exact AssemblerProofs.reads_exact. Qed.
+Print Assumptions C01_assembler_reads_exact.
+
+(** (d), content half: defragmentation (heap sort, trimming of overlaps, copying of contiguous
+    runs into one buffer) keeps every buffered chunk a slice of [w] and does not touch
+    [bytes_read] / the mode. *)
+Theorem C01_assembler_defragment_preserves_content : forall (w : Z -> Z) fixed a,
+  Forall (good w) (Assembler.data a) ->
+  Forall (good w) (Assembler.data (Assembler.defragment fixed a)) /\
+  Assembler.bytes_read (Assembler.defragment fixed a) = Assembler.bytes_read a /\
+  Assembler.ordered (Assembler.defragment fixed a) = Assembler.ordered a.
+Proof.
+  intros w fixed a H. pose proof (defragment_fields fixed a) as (E1 & _ & E3 & _).
+  split; [now apply defragment_good | auto].
+Qed.
+Print Assumptions C01_assembler_defragment_preserves_content.
+
+(** The binary heap never loses or invents a buffer: push/pop/into_sorted_vec permute. *)
+Theorem C01_heap_ops_permute : forall h x,
+  Permutation.Permutation (Assembler.push h x) (x :: h) /\
+  Permutation.Permutation (Assembler.into_sorted_vec h) h /\
+  (forall top h', Assembler.pop h = Some (top, h') -> Permutation.Permutation h (top :: h')).
+Proof.
+  intros h x. split; [apply push_perm|]. split; [apply into_sorted_vec_perm|].
+  intros top h' H. now apply pop_perm in H.
+Qed.
+Print Assumptions C01_heap_ops_permute.
+
+(* ------------------------------------------------------------------ SendBuffer *)
+(** [sendbuffer_frames_sound]: for EVERY op sequence (writes in any chunking, poll_transmit with
+    any max_len, acks and losses of any ranges in any order, re-chunked retransmits,
+    retransmit_all_for_0rtt) on which the model does not panic, every frame produced by
+    poll_transmit + the copy loop of write_stream_frames carries exactly the bytes the application
+    wrote at those offsets. *)
+Theorem C01_sendbuffer_frames_sound : forall os s' W' fs,
+  SendBufferProofs.exec SendBuffer.init [] os = Some (s', W', fs) ->
+  Forall (frame_ok W') fs.
+Proof. exact SendBufferProofs.frames_sound. Qed.
+Print Assumptions C01_sendbuffer_frames_sound.
+
+(** [sendbuffer_get_progress] (local form): inside the buffered window
+    [offset - unacked_len, offset) a [get] for a non-empty range returns a non-empty slice, so the
+    copy loop advances. *)
+Theorem C01_sendbuffer_get_progress : forall W s gs ge,
+  SendBufferProofs.inv W s ->
+  SendBufferProofs.base s <= gs -> gs < ge -> gs < SendBuffer.offset s ->
+  exists b d, SendBuffer.get s gs ge = Some (b :: d).
+Proof. exact SendBufferProofs.get_progress. Qed.
+Print Assumptions C01_sendbuffer_get_progress.
+
+(* ------------------------------------------------------------------ refutation witnesses *)
+(** The code BEFORE the two repairs violates exactly-once delivery; the model of the unrepaired
+    code ([run_unfixed]) exhibits it and the property oracle rejects those outputs.  Both were
+    replayed on the real code (see the repository commits `fix: Assembler::...`). *)
+Definition witness_empty_frame : ops :=
+  [[7; 0]; [2; 0]; [0; 7; 10]; [0; 8; 10; 59]; [0; 5; 10; 38; 45; 52; 59];
+   [1; 100; 0]; [1; 100; 0]; [3]].
+Example C01_unfixed_empty_frame_refuted :
+  Assembler.run_unfixed witness_empty_frame =
+    [[0]; [0]; [0]; [0]; [0]; [1; 5; 38; 45; 52; 59]; [1; 8; 59]; [5]] /\
+  Assembler.oracle witness_empty_frame (Assembler.run_unfixed witness_empty_frame) = false /\
+  Assembler.oracle witness_empty_frame (Assembler.run witness_empty_frame) = true.
+Proof. vm_compute. repeat split. Qed.
+
+Definition witness_stale_chunk : ops :=
+  [[7; 0]; [0; 0; 3; 3; 10; 17]; [0; 0; 3; 3; 10; 17]; [1; 3; 1]; [1; 100; 0]; [3]].
+Example C01_unfixed_stale_chunk_refuted :
+  Assembler.run_unfixed witness_stale_chunk =
+    [[0]; [0]; [0]; [1; 0; 3; 10; 17]; [1; 0; 3; 10; 17]; [6]] /\
+  Assembler.oracle witness_stale_chunk (Assembler.run_unfixed witness_stale_chunk) = false /\
+  Assembler.oracle witness_stale_chunk (Assembler.run witness_stale_chunk) = true.
+Proof. vm_compute. repeat split. Qed.
+
+(* ------------------------------------------------------------------ non-vacuity *)
+Definition pat (x : Z) : Z := Assembler.w 0 x.
+Example C01_assembler_example :
+  let os := [OInsert 3 40000 [pat 3; pat 4; pat 5]; OInsert 0 5 [pat 0; pat 1; pat 2; pat 3];
+             OInsert 0 5 [pat 0; pat 1; pat 2; pat 3]; ORead 2 true; OInsert 1 40000 [pat 1; pat 2];
+             ORead 100 true; ORead 100 true; ORead 100 false] in
+  Forall (AssemblerProofs.op_ok pat) os /\
+  exists a' evs, AssemblerProofs.exec Assembler.init os = Some (a', evs) /\
+                 obytes evs = [pat 0; pat 1; pat 2; pat 3; pat 4; pat 5] /\ length evs = 3%nat.
+Proof.
+  split.
+  - repeat constructor; cbn; lia.
+  - eexists; eexists. split; [vm_compute; reflexivity|]. vm_compute. split; reflexivity.
+Qed.
+
+Example C01_sendbuffer_example :
+  let os := [OWrite [1; 2; 3]; OWrite [4; 5; 6; 7; 8; 9; 10; 11; 12; 13; 14; 15; 16; 17; 18; 19; 20];
+             OPoll 16; ORetransmit 0 16; OWrite [21]; OPoll 18; OAck 0 10; OPoll 16; OPoll 100] in
+  exists s' W' fs, SendBufferProofs.exec SendBuffer.init [] os = Some (s', W', fs) /\
+    fs = [(true, 0, 16, [1;2;3;4;5;6;7;8;9;10;11;12;13;14;15;16]);
+          (true, 0, 10, [1;2;3;4;5;6;7;8;9;10]);
+          (true, 10, 16, [11;12;13;14;15;16]);
+          (true, 16, 21, [17;18;19;20;21])].
+Proof. do 3 eexists. split; vm_compute; reflexivity. Qed.
